@@ -106,18 +106,20 @@ pub struct Params {
 	pub normal: Sweep,
 	/// wrappers with >= 3 nested arrays/maps (recursion unfolded twice)
 	pub deep: Sweep,
+	/// intermediate uniform refill sizes of the reader for targets that skip size-prefixed blocks
+	pub chunk_sizes: Vec<usize>,
 	pub max_leaves: u64,
 }
 impl Params {
 	pub fn quick() -> Self {
 		let normal = Sweep { value_items: 2, w1_rec: 1, other_items: 1, other_rec: 1, a_layout_cap: 36, wide_ns: vec![3, 4], wide_inner: 2, b_layout_cap: 324 };
 		let deep = normal.clone();
-		Params { level_w1: 2, level_other: 1, normal, deep, max_leaves: 100_000 }
+		Params { level_w1: 2, level_other: 1, normal, deep, chunk_sizes: vec![2, 3, 4, 5, 6, 8, 11, 16, 32], max_leaves: 100_000 }
 	}
 	pub fn thorough() -> Self {
 		let normal = Sweep { value_items: 2, w1_rec: 2, other_items: 1, other_rec: 1, a_layout_cap: 216, wide_ns: vec![3, 4, 5, 6], wide_inner: 2, b_layout_cap: 1944 };
 		let deep = Sweep { value_items: 1, w1_rec: 1, other_items: 1, other_rec: 1, a_layout_cap: 36, wide_ns: vec![3, 4], wide_inner: 2, b_layout_cap: 324 };
-		Params { level_w1: 3, level_other: 2, normal, deep, max_leaves: 400_000 }
+		Params { level_w1: 3, level_other: 2, normal, deep, chunk_sizes: CHUNK_SIZES.to_vec(), max_leaves: 400_000 }
 	}
 	/// Development knob: `VERIF_C12_PARAMS='{"level_w1":2,"level_other":1,"normal":{…},"deep":{…},"max_leaves":N}'`.
 	pub fn with_env_override(self) -> Self {
@@ -131,6 +133,7 @@ impl Params {
 			level_other: v["level_other"].as_u64().map_or(self.level_other, |x| x as usize),
 			normal: self.normal.overridden(&v["normal"]),
 			deep: self.deep.overridden(&v["deep"]),
+			chunk_sizes: v["chunk_sizes"].as_array().map_or(self.chunk_sizes.clone(), |a| a.iter().map(|x| x.as_u64().unwrap() as usize).collect()),
 			max_leaves: v["max_leaves"].as_u64().unwrap_or(self.max_leaves),
 		}
 	}
@@ -144,7 +147,7 @@ impl Params {
 	fn from_replay(r: &serde_json::Value) -> Self {
 		let q = Params::quick();
 		let sw = q.normal.overridden(&r["sweep_params"]);
-		Params { level_w1: r["level_w1"].as_u64().unwrap_or(2) as usize, level_other: r["level_other"].as_u64().unwrap_or(1) as usize, normal: sw.clone(), deep: sw, max_leaves: u64::MAX }
+		Params { level_w1: r["level_w1"].as_u64().unwrap_or(2) as usize, level_other: r["level_other"].as_u64().unwrap_or(1) as usize, normal: sw.clone(), deep: sw, chunk_sizes: r["chunk_sizes"].as_array().map_or(CHUNK_SIZES.to_vec(), |a| a.iter().map(|x| x.as_u64().unwrap() as usize).collect()), max_leaves: u64::MAX }
 	}
 }
 
@@ -437,7 +440,18 @@ enum Seen {
 	Panic(String),
 }
 
+/// `path`: 0 = slice, 1 = reader handing out everything at once, 2 = reader with 1-byte chunks.
 fn execute(cs: &serde_avro_fast::Schema, padded: &[u8], hint: &Hint, path: usize) -> Seen {
+	match path {
+		0 => execute_on(cs, padded, hint, None),
+		1 => execute_on(cs, padded, hint, Some(0)),
+		_ => execute_on(cs, padded, hint, Some(1)),
+	}
+}
+
+/// `chunk`: None = slice; Some(k) = reader refilling in uniform chunks of k bytes (0 = all at once).
+fn execute_on(cs: &serde_avro_fast::Schema, padded: &[u8], hint: &Hint, chunk: Option<usize>) -> Seen {
+	let path = if chunk.is_none() { 0 } else { 1 };
 	let limits = Limits { allowed_depth: None, max_seq_size: None, max_alloc_size: Some(padded.len().max(64)) };
 	match path {
 		0 => match subj::de_slice(cs, padded, hint, &limits) {
@@ -446,7 +460,7 @@ fn execute(cs: &serde_avro_fast::Schema, padded: &[u8], hint: &Hint, path: usize
 			Out::Panic(e) => Seen::Panic(e),
 		},
 		_ => {
-			let rd = ChunkedBufRead::uniform(padded, if path == 1 { 0 } else { 1 });
+			let rd = ChunkedBufRead::uniform(padded, chunk.unwrap_or(0));
 			let (r, run) = subj::de_reader(cs, rd, hint, &limits);
 			match r {
 				Out::Ok(o) => Seen::Ok(o.unborrowed(), run.consumed),
@@ -458,6 +472,7 @@ fn execute(cs: &serde_avro_fast::Schema, padded: &[u8], hint: &Hint, path: usize
 }
 
 pub struct Ctx<'a> {
+	pub chunk_sizes: &'a [usize],
 	pub u: &'a Unit,
 	pub cs: &'a serde_avro_fast::Schema,
 	pub env: &'a Env<'a>,
@@ -469,6 +484,27 @@ fn sentinel_of(o: &O) -> Option<&O> {
 	match o {
 		O::Map(entries) => entries.iter().find(|(k, _)| matches!(k, O::Str(s, _) if s == "sentinel")).map(|(_, v)| v),
 		_ => None,
+	}
+}
+
+/// Intermediate refill sizes tried on the reader path for targets that skip size-prefixed blocks (thorough; quick uses a subset).
+const CHUNK_SIZES: [usize; 15] = [2, 3, 4, 5, 6, 7, 8, 9, 10, 11, 12, 16, 24, 32, 64];
+
+fn compare(seen: &Seen, expect: &O, len: usize) -> Option<(&'static str, String)> {
+	match seen {
+		Seen::Panic(m) => Some(("skip-panic", format!("panicked: {m}"))),
+		Seen::Err(e) => Some(("skip-err", format!("returned Err({e}); the non-ignoring decode succeeds and consumes {len} bytes"))),
+		Seen::Ok(o, n) => {
+			if sentinel_of(o) != sentinel_of(expect) {
+				Some(("skip-sentinel", format!("sentinel observed as {:?} (non-ignoring decode: {SENTINEL}), consumed {n} of {len} bytes; whole observation {o:?}", sentinel_of(o))))
+			} else if o != expect {
+				Some(("skip-differs", format!("observed {o:?}, expected (non-ignoring observation with the ignored part blanked) {expect:?}")))
+			} else if *n != len {
+				Some(("skip-consumed", format!("consumed {n} bytes, the non-ignoring decode and the reference model say {len}")))
+			} else {
+				None
+			}
+		}
 	}
 }
 
@@ -527,6 +563,7 @@ fn run_leaf(ctx: &Ctx, v: &RValue, bytes: &[u8], rec: &[Vec<Block>], replay_base
 		targets.push(vec![Target { path: vec![1], kind: Kind::Absent }, Target { path: vec![0], kind: Kind::Absent }]);
 	}
 	let mut any_target = false;
+	let mut spans: Option<Vec<Vec<lay::BlockSpan>>> = None;
 	for tset in &targets {
 		if let Some(o) = only {
 			if o != tset {
@@ -545,6 +582,7 @@ fn run_leaf(ctx: &Ctx, v: &RValue, bytes: &[u8], rec: &[Vec<Block>], replay_base
 			ignored_collections(&full_hint, v, s, ctx.env, Some(&t.path), t.kind, &mut idx, &mut colls);
 		}
 		let mut ran = false;
+		let mut reader_expect: Option<O> = None;
 		for (pi, pname) in PATHS.iter().enumerate() {
 			let Some(base) = &baseline[pi] else { continue };
 			let mut h = full_hint.clone();
@@ -562,6 +600,9 @@ fn run_leaf(ctx: &Ctx, v: &RValue, bytes: &[u8], rec: &[Vec<Block>], replay_base
 				continue;
 			}
 			ran = true;
+			if pi > 0 {
+				reader_expect = Some(expect.clone());
+			}
 			cover.impl_runs += 1;
 			let seen = execute(ctx.cs, &padded, &hint, pi);
 			cover.outcomes.insert(hash64(&match &seen {
@@ -572,21 +613,7 @@ fn run_leaf(ctx: &Ctx, v: &RValue, bytes: &[u8], rec: &[Vec<Block>], replay_base
 			if ctx.verbose {
 				println!("  target [{desc}], {pname}: crate -> {seen:?}\n      expected Ok({expect:?}) consuming {len} bytes");
 			}
-			let problem: Option<(&str, String)> = match &seen {
-				Seen::Panic(m) => Some(("skip-panic", format!("panicked: {m}"))),
-				Seen::Err(e) => Some(("skip-err", format!("returned Err({e}); the non-ignoring decode succeeds and consumes {len} bytes"))),
-				Seen::Ok(o, n) => {
-					if sentinel_of(o) != sentinel_of(&expect) {
-						Some(("skip-sentinel", format!("sentinel observed as {:?} (non-ignoring decode: {SENTINEL}), consumed {n} of {len} bytes; whole observation {o:?}", sentinel_of(o))))
-					} else if o != &expect {
-						Some(("skip-differs", format!("observed {o:?}, expected (non-ignoring observation with the ignored part blanked) {expect:?}")))
-					} else if *n != len {
-						Some(("skip-consumed", format!("consumed {n} bytes, the non-ignoring decode and the reference model say {len}")))
-					} else {
-						None
-					}
-				}
-			};
+			let problem = compare(&seen, &expect, len);
 			if let Some((class, text)) = problem {
 				let again = execute(ctx.cs, &padded, &hint, pi);
 				if again != seen {
@@ -627,6 +654,65 @@ fn run_leaf(ctx: &Ctx, v: &RValue, bytes: &[u8], rec: &[Vec<Block>], replay_base
 			}
 			if sized {
 				cover.count("targets_over_sized_blocks", 1);
+			}
+			// The skipping path jumps over a size-prefixed block with `skip_bytes`: on a reader that
+			// jump may have to cross refills. Every intermediate uniform refill size that puts a refill
+			// boundary strictly inside one of the skipped blocks is executed too.
+			if let (true, Some(expect)) = (sized, &reader_expect) {
+				let spans = spans.get_or_insert_with(|| {
+					lay::trace_blocks(bytes, s, ctx.env).unwrap_or_else(|| {
+						eprintln!("MACHINERY: C12 tracer cannot walk a valid encoding: schema {} bytes [{}]", ctx.schema_text, hex(bytes));
+						std::process::exit(2)
+					})
+				});
+				for &k in ctx.chunk_sizes {
+					if k >= padded.len() {
+						break;
+					}
+					let mut inside = false;
+					let mut data_after = false;
+					for &c in &colls {
+						for b in spans[c].iter().filter(|b| b.sized) {
+							// first refill boundary (multiple of k) strictly after the block's start
+							let m = (b.start / k + 1) * k;
+							if m < b.end {
+								inside = true;
+								// last boundary inside the block: does its chunk reach beyond the block?
+								let last = (b.end - 1) / k * k;
+								if last > b.start && last + k > b.end {
+									data_after = true;
+								}
+							}
+						}
+					}
+					if !inside {
+						continue;
+					}
+					cover.impl_runs += 1;
+					cover.count("reader_intermediate_chunk_runs", 1);
+					if data_after {
+						cover.count("skip_crossed_refill_with_data_after_in_chunk", 1);
+					}
+					let seen = execute_on(ctx.cs, &padded, &hint, Some(k));
+					if ctx.verbose {
+						println!("  target [{desc}], reader-{k}byte-chunks: crate -> {seen:?}\n      expected Ok({expect:?}) consuming {len} bytes");
+					}
+					if let Some((class, text)) = compare(&seen, expect, len) {
+						let again = execute_on(ctx.cs, &padded, &hint, Some(k));
+						if again != seen {
+							eprintln!("MACHINERY: C12 case is not deterministic: schema {} bytes [{}] target {desc} reader chunks of {k}", ctx.schema_text, hex(bytes));
+							std::process::exit(2);
+						}
+						let mut r = replay_base.clone();
+						r["targets"] = json!(tset.iter().map(|t| json!({"path": t.path, "kind": format!("{:?}", t.kind)})).collect::<Vec<_>>());
+						r["chunk"] = json!(k);
+						out.push(Violation {
+							class: class.to_owned(),
+							what: format!("schema {} value {v:?} layout {layout} bytes [{}] (+2 padding bytes 2a 2a); target: {desc}; reader refilling in chunks of {k} bytes: {text}", ctx.schema_text, hex(bytes)),
+							replay: r,
+						});
+					}
+				}
 			}
 			if sized || colls.iter().any(|&c| rec[c].len() >= 2) {
 				cover.nontrivial.insert(hash64(&(ctx.u.id, bytes, tset)));
@@ -745,8 +831,8 @@ fn run_job(u: &Unit, job: &Job, params: &Params) -> (Cover, Vec<Violation>) {
 			std::process::exit(2);
 		}
 	};
-	let ctx = Ctx { u, cs: &cs, env: &env, schema_text: schema_text.clone(), verbose: false };
-	let base = |choices: Vec<usize>| json!({"check": "C12", "unit": u.id, "embedding": u.emb.name(), "schema": schema_text, "level_w1": params.level_w1, "level_other": params.level_other, "sweep_params": p.to_json(), "sweep": job.sweep, "n": job.n, "choices": choices});
+	let ctx = Ctx { chunk_sizes: &params.chunk_sizes, u, cs: &cs, env: &env, schema_text: schema_text.clone(), verbose: false };
+	let base = |choices: Vec<usize>| json!({"check": "C12", "unit": u.id, "embedding": u.emb.name(), "schema": schema_text, "level_w1": params.level_w1, "level_other": params.level_other, "sweep_params": p.to_json(), "chunk_sizes": params.chunk_sizes, "sweep": job.sweep, "n": job.n, "choices": choices});
 	let what = format!("unit {} ({}) sweep {} n={} below picks {:?}", u.id, u.emb.name(), job.sweep, job.n, job.prefix);
 	let mut seen: HashSet<Vec<u8>> = HashSet::new();
 	if job.sweep == "A" {
@@ -787,11 +873,12 @@ pub fn run(rep: &mut Report) {
 	let p = if rep.thorough() { Params::thorough() } else { Params::quick() }.with_env_override();
 	let us = units(&p);
 	rep.rule = format!(
-		"SAE. Every schema S of Σ_S is embedded as W1 record{{ignored: S, sentinel: long}} (Σ_S level {}), and (Σ_S level {}) W2 record{{a: S, b: S renamed, sentinel}}, W3 record{{arr: array<S>, sentinel}} and record{{m: map<S>, sentinel}}, W4 record{{u: [S, long], sentinel}} (S not itself a union; [long, boolean] for S = long). Sweep A: every value of Σ_V × block layouts (all compositions of an occurrence into blocks × all sign assignments, negative count + byte size; occurrences enumerated jointly while the product of their layout counts <= the cap, one plan per start occurrence); sweep B: deterministic wide values × block layouts under a product cap. Bounds for wrappers with < 3 nested arrays/maps: {}. Bounds for wrappers with >= 3 nested arrays/maps: {}. Sentinel = {SENTINEL}, two padding bytes follow the datum. Each leaf is decoded with the full Hinted hint tree (non-ignoring) and once per ignoring target: every payload field absent from the target struct (W2: a, b, a+b), the whole datum → IgnoredAny, every sub-tree of the payload's hint tree → IgnoredAny (W1: all depths, incl. every element / every map key / every map value / union payloads; W3, W4: one level below the field), every taken non-null union branch as a unit variant; from slice, whole-buffer reader and 1-byte-chunk reader. Oracle: the ignoring decode is Ok, its observation equals the non-ignoring observation with the ignored part blanked (so the sentinel and every other field are identical), and it consumes exactly the encoded length according to the reference model (= what the non-ignoring decode consumes). Targets that the value does not reach (branch not taken) are not executed. Non-trivial: (schema, bytes, target) where an array/map handed directly to the skipping path is laid out in >= 2 blocks or has a negative-count block; distinct on that triple. Leaf cap {} per job (wrapper × sweep × pick prefix).",
+		"SAE. Every schema S of Σ_S is embedded as W1 record{{ignored: S, sentinel: long}} (Σ_S level {}), and (Σ_S level {}) W2 record{{a: S, b: S renamed, sentinel}}, W3 record{{arr: array<S>, sentinel}} and record{{m: map<S>, sentinel}}, W4 record{{u: [S, long], sentinel}} (S not itself a union; [long, boolean] for S = long). Sweep A: every value of Σ_V × block layouts (all compositions of an occurrence into blocks × all sign assignments, negative count + byte size; occurrences enumerated jointly while the product of their layout counts <= the cap, one plan per start occurrence); sweep B: deterministic wide values × block layouts under a product cap. Bounds for wrappers with < 3 nested arrays/maps: {}. Bounds for wrappers with >= 3 nested arrays/maps: {}. Sentinel = {SENTINEL}, two padding bytes follow the datum. Each leaf is decoded with the full Hinted hint tree (non-ignoring) and once per ignoring target: every payload field absent from the target struct (W2: a, b, a+b), the whole datum → IgnoredAny, every sub-tree of the payload's hint tree → IgnoredAny (W1: all depths, incl. every element / every map key / every map value / union payloads; W3, W4: one level below the field), every taken non-null union branch as a unit variant; from slice, whole-buffer reader and 1-byte-chunk reader, and — for targets that skip a negative-count (size-prefixed) block — from readers refilling in uniform chunks of every size in {:?} that puts a refill boundary strictly inside a skipped block. Oracle: the ignoring decode is Ok, its observation equals the non-ignoring observation with the ignored part blanked (so the sentinel and every other field are identical), and it consumes exactly the encoded length according to the reference model (= what the non-ignoring decode consumes). Targets that the value does not reach (branch not taken) are not executed. Non-trivial: (schema, bytes, target) where an array/map handed directly to the skipping path is laid out in >= 2 blocks or has a negative-count block; distinct on that triple. Leaf cap {} per job (wrapper × sweep × pick prefix).",
 		p.level_w1,
 		p.level_other,
 		p.normal.text(),
 		p.deep.text(),
+		p.chunk_sizes,
 		p.max_leaves
 	);
 	rep.assumptions.push("reference encoder/decoder (vmodel) implements the Avro 1.11 binary encoding; the encoded length is the reference's".into());
@@ -833,6 +920,8 @@ pub fn run(rep: &mut Report) {
 		"ignored_collection_first_block_sized",
 		"ignored_collection_sized_block_followed_by_block",
 		"ignored_collection_unsized_then_sized_block",
+		"reader_intermediate_chunk_runs",
+		"skip_crossed_refill_with_data_after_in_chunk",
 		"wide_leaves",
 	];
 	for k in need {
@@ -866,7 +955,7 @@ pub fn replay(v: &serde_json::Value) -> i32 {
 	}
 	let env = Env::new(&u.schema);
 	let cs = gen::to_crate_schema(&u.schema).unwrap();
-	let ctx = Ctx { u, cs: &cs, env: &env, schema_text: schema_text.clone(), verbose: true };
+	let ctx = Ctx { chunk_sizes: &params.chunk_sizes, u, cs: &cs, env: &env, schema_text: schema_text.clone(), verbose: true };
 	let choices: Vec<usize> = r["choices"].as_array().map(|a| a.iter().map(|c| c.as_u64().unwrap() as usize).collect()).unwrap_or_default();
 	let mut ch = Chooser::replay(choices);
 	let only: Option<Vec<Target>> = r["targets"].as_array().map(|a| {
